@@ -39,7 +39,8 @@ class Report:
 
     def violate(self, key, what, case):
         """`key` names the specific failing input class (matched against known_findings.json)."""
-        if len(self.violations) < 500:
+        # cap per key, so that a high-volume known finding cannot crowd out a different (new) violation
+        if self.dist['violation:' + key] < 25 and len(self.violations) < 3000:
             self.violations.append({'key': key, 'what': what, 'case': case})
         self.dist['violation:' + key] += 1
 
@@ -68,8 +69,36 @@ class Ctx:
     def drive(self, lines):
         return lean_bridge.drive(lines)
 
+    part, parts = 0, 1
+
     def sub_rng(self, *tag):
-        return random.Random(f'{self.prop}:{self.seed}:' + ':'.join(map(str, tag)))
+        return random.Random(f'{self.prop}:{self.seed}:{self.part}/{self.parts}:' + ':'.join(map(str, tag)))
+
+
+def _par_worker(args):
+    func, prop, tier, seed, scale, oracle_only, i, n = args
+    ctx = Ctx(prop, tier, seed)
+    ctx.scale, ctx.oracle_only = scale, oracle_only
+    ctx.part, ctx.parts = i, n
+    ctx.rng = random.Random(f'{prop}:{seed}:part{i}')
+    rep = Report()
+    func(ctx, rep)
+    return rep
+
+
+def parallel(func, ctx, rep, parts=None):
+    """Run `func(ctx_i, rep_i)` in `parts` forked worker processes (each with `ctx_i.part`, `ctx_i.parts` and its own
+    PRNG stream `sub_rng` seeded by part) and merge the reports.  `func` must be a module-level function."""
+    import multiprocessing as mp
+    parts = parts or ctx.workers
+    if parts <= 1:
+        ctx.part, ctx.parts = 0, 1
+        func(ctx, rep)
+        return
+    with mp.get_context('fork').Pool(parts) as pool:
+        for r in pool.imap_unordered(_par_worker, [(func, ctx.prop, ctx.tier, ctx.seed, ctx.scale, ctx.oracle_only, i, parts)
+                                                   for i in range(parts)]):
+            rep.merge(r)
 
 
 def load_known():
@@ -143,6 +172,7 @@ def run_check(mod, tier, seed):
     if not ok:
         ctx.oracle_only = True  # no driver: correspondence cannot run; oracle still can
     try:
+        _run_corpus(mod, ctx, rep)
         mod.run(ctx, rep)
     except lean_bridge.subprocess.TimeoutExpired as e:
         infra = f'timeout: {e}'
@@ -227,6 +257,24 @@ def run_check(mod, tier, seed):
           f'({len(rep.nontrivial)} distinct non-trivial), disagreements {len(rep.disagreements)}, '
           f'violations {len(new_viol)}, known {len(known_hit)}, {ev["wall_s"]}s -> exit {status}', flush=True)
     return status
+
+
+def _run_corpus(mod, ctx, rep):
+    """Minimised past failures (corpus/<ID>/*.json: inputs on which some earlier or seeded version of the code broke
+    the property) are replayed through the oracle before anything else."""
+    import contextlib, glob, io
+    n = 0
+    for path in sorted(glob.glob(os.path.join(VERIF, 'corpus', mod.ID, '*.json'))):
+        try:
+            data = json.load(open(path))
+            with contextlib.redirect_stdout(io.StringIO()):
+                mod.replay(ctx, rep, data['case'])
+            n += 1
+        except Exception as e:  # noqa: BLE001
+            rep.notes.append(f'corpus case {os.path.basename(path)} could not be replayed: {e!r}')
+    if n:
+        rep.dist['corpus_cases_replayed'] = n
+        rep.evaluations += n
 
 
 def _first_error(log):
